@@ -376,7 +376,9 @@ spec_stream = generic_stream(
 
 def _meta_dist(dist, o, kv):
     dist["kind_" + str(o.get("kind"))] += 1
-    if o.get("kind") == "inproc":
+    if o.get("kind") == "termination":
+        dist["termination_%s" % ("conflict" if "Err" in str(o.get("result")) else "ok")] += 1
+    elif o.get("kind") == "inproc":
         dist["inproc_nc_%s" % ("1" if o.get("nc") == 1 else "gt_hw" if o.get("nc", 0) > o.get("hardware_threads", 0) else "le_hw")] += 1
     elif o.get("kind") == "bench":
         dist["bench_%s_nc%s" % (o.get("problem"), o.get("nc"))] += 1
@@ -387,13 +389,13 @@ def _meta_dist(dist, o, kv):
         dist["mutate_calls"] += o.get("calls", 0)
 
 
-META_SLICE = {"C14": "rej/mutate", "C15": "rej/", "C17": "rej/selection", "C05": "rej/inproc"}
+META_SLICE = {"C14": "rej/mutate", "C15": "rej/", "C17": "rej/selection", "C05": "rej/inproc", "C03": "rej/termination", "C04": "rej/termination"}
 
 meta_stream = generic_stream(
     "META", "meta", None,
     lambda pid, acc: acc.startswith(META_SLICE.get(pid, "rej/")),
     ("kind", "input", "input_bits", "rng_seed", "calls", "kept", "n", "pressure", "pressure_bits", "samples", "counts",
-     "problem", "nc", "budget", "order_seed", "f_init", "f_best", "best", "completed", "hardware_threads", "peak", "started", "ok", "wall_ms"),
+     "problem", "nc", "budget", "order_seed", "f_init", "f_best", "best", "completed", "hardware_threads", "peak", "started", "ok", "wall_ms", "criteria", "result"),
     lambda o, kv: True,
     _meta_dist)
 
@@ -561,7 +563,8 @@ PROPS = {
                      ["best_is_min_ss1 is stated for any total preorder on objective values with mean [x] ~ x and instantiated at finite binary64 values (best_is_min_ss1_f64: the order hypotheses are theorems of Base/FinOrder.v)"],
                      ["algorithm core at operation granularity: sequences of next_individual / process_individual_eval on the real AlgoContext (cfg hook) with the whole population read back and compared with the model's (Check/AlgoCheck.v), incl. runs past the population cap"]),
     "C03": _run_prop("C03", [{"kind": "run", "name": "mixed", "profile": "mixed", "count": {"quick": 320, "thorough": 4000}, "salt": 3},
-                             {"kind": "cli", "name": "budget", "profile": "budget", "count": {"quick": 32, "thorough": 300}, "salt": 31}],
+                             {"kind": "cli", "name": "budget", "profile": "budget", "count": {"quick": 32, "thorough": 300}, "salt": 31},
+                             {"kind": "meta", "name": "term", "profile": "term", "count": {"quick": 200, "thorough": 4000}, "salt": 32}],
                      None, ["the budget through the binary (termination::compile with -n alone or combined with a time limit that cannot fire, sync_launch, async_launch): exactly N children started (cli stream, profile budget)"]),
     "C04": _run_prop("C04", [{"kind": "run", "name": "stop", "profile": "stop", "count": {"quick": 320, "thorough": 4000}, "salt": 4},
                              {"kind": "cli", "name": "limit", "profile": "limit", "count": {"quick": 16, "thorough": 120}, "salt": 41}],
